@@ -5,8 +5,8 @@
     match and reports the leftmost match at or after that position; a match of \bLIT\b at o is an occurrence of LIT at
     o whose two ends are ASCII word boundaries (text ends count as non-word).  All matches have the length of LIT. *)
 From ZV Require Import Lib.Base Lib.GoSearch Lib.RuneCount Model.Lines Model.Ranges
-  Proofs.LinesBasic Proofs.RuneCountProofs Proofs.LinesMatch Proofs.LinesChunk Proofs.LinesBreakCover Proofs.RangesGather Proofs.RangesLineMode.
-From Coq Require Import Sorting.Sorted.
+  Proofs.LinesBasic Proofs.RuneCountProofs Proofs.LinesMatch Proofs.LinesChunk Proofs.LinesBreakCover Proofs.RangesGather Proofs.RangesLineMode Generated.RangesWordBytes.
+From Coq Require Import Sorting.Sorted Lia.
 
 (** a match of \bLIT\b at byte offset o *)
 Definition wb_matchb (w data : list N) (o : nat) : bool :=
@@ -205,4 +205,57 @@ Lemma word_resume_plus1_refuted : exists w data, w <> [] /\
 Proof.
   exists ex_dot_get, ex_x_get_get. split; [discriminate|]. intros H.
   apply word_fastpath_is_regexp in H; [|discriminate]. vm_compute in H. discriminate.
+Qed.
+
+
+(** the same for a file-name query (wordMatchTree{fileName: true} scans the name): candidates of ONE class that are strictly
+    increasing and non-overlapping pass gatherMatches unchanged *)
+Lemma overlap_aux_id_class : forall fn l last, c_fn last = fn -> Forall (fun m => c_fn m = fn) l ->
+  StronglySorted (fun a b => c_off a < c_off b /\ c_end a <= c_off b) (last :: l) -> overlap_aux last l = l.
+Proof.
+  intros fn. induction l as [|x r IH]; intros last Hl Hfn Hs; simpl; auto.
+  inversion Hfn as [|? ? Hx Hr]; subst. inversion Hs as [|? ? Hs' Hall]; subst.
+  inversion Hall as [|? ? [_ Hlx] _]; subst.
+  rewrite Hx, Bool.eqb_reflx. simpl. replace (c_end last <=? c_off x) with true by (symmetry; apply Nat.leb_le; lia).
+  f_equal. apply IH; auto.
+Qed.
+
+Lemma same_class_matches_kept : forall fn nl ms, ms <> [] -> Forall (fun m => c_fn m = fn) ms ->
+  StronglySorted (fun a b => c_off a < c_off b /\ c_end a <= c_off b) ms -> gather nl ms = ms.
+Proof.
+  intros fn nl ms Hne Hfn Hs. unfold gather. destruct ms as [|x r] eqn:E; [congruence|]. rewrite <- E.
+  assert (Hk : StronglySorted le_key ms).
+  { subst ms. clear Hne. revert Hfn Hs. generalize (x :: r). intros l Hfn Hs.
+    induction Hs as [|a t Ht IH Ha]; [constructor|].
+    inversion Hfn as [|? ? Hfa Hft]; subst. constructor; auto.
+    rewrite Forall_forall in *. intros y Hy. destruct (Ha y Hy) as [H1 _].
+    unfold le_key, cand_less. rewrite (Hft y Hy), Bool.eqb_reflx. simpl.
+    destruct (c_off y =? c_off a) eqn:E1; [lia|]. apply Nat.ltb_ge. lia. }
+  rewrite (sort_cands_id _ Hk). subst ms. simpl. f_equal.
+  inversion Hfn; subst. eapply overlap_aux_id_class; eauto.
+Qed.
+
+Theorem word_ranges_any_class : forall fn nl w data, w <> [] -> word_offsets w data <> [] ->
+  gather nl (word_cands fn w data) = word_cands fn w data.
+Proof.
+  intros fn nl w data Hw Hne. assert (Hlw : 1 <= length w) by (destruct w; [congruence|simpl; lia]).
+  assert (H : successive w data 0 (word_offsets w data)) by (apply word_fastpath_is_regexp; auto).
+  destruct (successive_sorted w data Hlw 0 _ H) as [H1 H2]. unfold word_cands in *.
+  apply same_class_matches_kept with (fn := fn).
+  - destruct (word_offsets w data); [congruence|simpl; congruence].
+  - apply Forall_forall. intros m Hm. apply in_map_iff in Hm. destruct Hm as [s [<- _]]. reflexivity.
+  - clear H H1 Hne. induction H2 as [|a l Hl IH Ha]; simpl; constructor; auto.
+    apply Forall_forall. intros m Hm. apply in_map_iff in Hm. destruct Hm as [s [<- Hs]].
+    rewrite Forall_forall in Ha. specialize (Ha s Hs). unfold c_end. simpl. lia.
+Qed.
+
+
+(** the model's character class = the table of bits.go characterClass regenerated from the tree under test on every run *)
+Lemma word_class_table : forall c, (c < 256)%N -> is_word_byte c = existsb (N.eqb c) word_bytes.
+Proof.
+  intros c Hc.
+  assert (H : forallb (fun c => Bool.eqb (is_word_byte c) (existsb (N.eqb c) word_bytes)) (map N.of_nat (seq 0 256)) = true)
+    by (vm_compute; reflexivity).
+  rewrite forallb_forall in H. apply Bool.eqb_prop. apply H. apply in_map_iff. exists (N.to_nat c).
+  split; [lia|]. apply in_seq. lia.
 Qed.
